@@ -847,7 +847,7 @@ class _Unjellier:
         if not self.taster.isModuleAllowed(modName):
             raise InsecureJelly("Module not allowed: %s" % modName)
         # XXX do I need an isFunctionAllowed?
-        function = namedAny(fname)
+        function = getattr(namedAny(modName), modSplit[-1])
         return function
 
     def _unjelly_persistent(self, rest):
